@@ -244,8 +244,8 @@ class Session:
                         v.resynced = True
                     c['state'] = 'done'
                     c['outcome'] = ('timeout', None) if self.connected else ('disconnect', None)
-                    if self.connected:
-                        self.time = max(self.time, c['deadline'])
+                    if self.connected and not has_reply:
+                        self.time = self.time + c['timeout']
                     self.hit('resynced-after-known-finding')
                 return vs
             if c['state'] == 'pending':
@@ -253,7 +253,9 @@ class Session:
                 self.process_queue()
                 if not has_reply:
                     if self.connected:
-                        self.time = max(self.time, c['deadline'])
+                        # dbus_pending_call_block() waits the call's whole timeout interval counted from the moment the
+                        # blocking wait STARTS (start_tv in _dbus_connection_block_pending_call), not from the send
+                        self.time = self.time + c['timeout']
                         self.complete(i, ('timeout', None))
                     else:
                         self.complete(i, ('disconnect', None))
